@@ -9,7 +9,7 @@ Trace == ndJsonDeserialize(TraceFile)
 Ev == Trace[l]
 V(p, c, sit) == [prop |-> p, clause |-> c, trace |-> Ev.trace, step |-> Ev.seq, sit |-> sit]
 Sit == [hiRel |-> Ev.s.hdr.hiRel, loRel |-> Ev.s.hdr.loRel, ncdr |-> Len(Ev.s.cdrs),
-        filter |-> Len(Ev.s.hdr.filter), ext |-> Len(Ev.s.hdr.ext)]
+        filter |-> Len(Ev.s.hdr.filter), ext |-> Len(Ev.s.hdr.ext), mem |-> Ev.mem, pre |-> Ev.pre]
 Step ==
   LET s == Ev.s
       wf == WellFormedStruct(s)
